@@ -2,13 +2,13 @@ import ShVerif.Model.C27
 /-
   Line protocol for C27.
 
-    run|runfx <bg> <base> <dir> <optbits> <op>* | <op>*     heap-shape dump of parent and child after the ops
-    spec|specfx <bg> <base> <dir> <optbits> <op>* | <op>*   the SPECIFICATION: the parent's observable state
+    run|runpinned <bg> <base> <dir> <optbits> <op>* | <op>*     heap-shape dump of parent and child after the ops
+    spec|specpinned <bg> <base> <dir> <optbits> <op>* | <op>*   the SPECIFICATION: the parent's observable state
                                                    as it was *before* the subshell ran (the impl
                                                    answers with the state *after*)
     growtab s|i <n>                                the growth policy the driver uses as oracle
 
-  `…fx` runs the repaired `assignVal` (clone before `+=`).  Op tokens: see `parseOp`.
+  `…pinned` runs the old `assignVal` (in-place `+=`, before db7f3b5).  Op tokens: see `parseOp`.
 -/
 namespace ShVerif.Drv.C27
 open ShVerif ShVerif.L1 ShVerif.C27
@@ -301,10 +301,10 @@ def runCase (fx spec : Bool) (c : Case) : String :=
 
 def handle (args : List String) : String :=
   match args with
-  | "run" :: rest => match parseCase rest with | some c => runCase false false c | none => "bad-op"
-  | "runfx" :: rest => match parseCase rest with | some c => runCase true false c | none => "bad-op"
-  | "spec" :: rest => match parseCase rest with | some c => runCase false true c | none => "bad-op"
-  | "specfx" :: rest => match parseCase rest with | some c => runCase true true c | none => "bad-op"
+  | "run" :: rest => match parseCase rest with | some c => runCase true false c | none => "bad-op"
+  | "runpinned" :: rest => match parseCase rest with | some c => runCase false false c | none => "bad-op"
+  | "spec" :: rest => match parseCase rest with | some c => runCase true true c | none => "bad-op"
+  | "specpinned" :: rest => match parseCase rest with | some c => runCase false true c | none => "bad-op"
   | ["growtab", k, n] =>
     match n.toNat? with
     | none => "bad-op"
